@@ -394,14 +394,55 @@ def register (w : World) (ipnum : Nat) (isClient : Bool) : World :=
   { w with hosts := w.hosts ++ [{ ipnum := ipnum, isClient := isClient, nextEph := w.cfg.ephLo, startOffset := w.elapsed }],
            links := w.links ++ newLinks }
 
+/-- tokio's timer wheel has millisecond granularity: a paused runtime that sleeps `d` from an
+    instant on the grid wakes at the next grid instant ≥ the deadline. -/
+def ceilMs (d : Nat) : Nat := (d + 999999) / 1000000 * 1000000
+
 /-- Start of `Sim::step`: the topology clock advances and every link matures its messages. -/
 def stepBegin (w : World) : World :=
-  let now := w.now + w.cfg.tick
+  let now := w.now + ceilMs w.cfg.tick
   { w with now := now, links := w.links.map (fun l => l.tick now) }
 
-/-- End of `Sim::step`: every host's timer and the sim clock advance by one tick. -/
+/-- A host's turn begins: `timer.now` is the window start; a sleeping script wakes if due.
+    `A` = what the runtime's clock advances per step (`ceilMs tick`). -/
+def hostTurnBegin (A : Nat) (hs : Host) : Host :=
+  let T := hs.winStart
+  match hs.wake with
+  | none => { hs with hnow := T }
+  | some W =>
+    if W ≤ T then { hs with hnow := T, wake := none }
+    else if W < T + A then { hs with hnow := W, wake := none }
+    else { hs with hnow := T }
+
+def turnBegin (w : World) (h : Nat) : World := w.setHost h (hostTurnBegin (ceilMs w.cfg.tick))
+
+/-- `tokio::time::sleep(ms)` inside the scripted task: continues in this window, or suspends. -/
+def hostSleep (A : Nat) (hs : Host) (ms : Nat) : Host × Bool :=
+  let W := hs.hnow + ms * 1000000
+  if W < hs.winStart + A then ({ hs with hnow := W }, true) else ({ hs with wake := some W }, false)
+
+def opSleep (w : World) (h : Nat) (ms : Nat) : World × Bool :=
+  let (hs', b) := hostSleep (ceilMs w.cfg.tick) (w.host! h) ms
+  (w.setHost h (fun _ => hs'), b)
+
+/-- `HostTimer::elapsed` / `sim_elapsed` / `since_epoch` as host code sees them right now. -/
+def elapsedNow (hs : Host) : Nat := hs.elapsed + (hs.hnow - hs.winStart)
+def simNow (hs : Host) : Nat := hs.startOffset + elapsedNow hs
+def epochNow (epoch : Nat) (hs : Host) : Nat := epoch + simNow hs
+
+def opClock (w : World) (h : Nat) : World × String :=
+  let hs := w.host! h
+  (w, s!"ok elapsed={elapsedNow hs} sim={simNow hs} epoch={epochNow 1700000000000000000 hs} inst={hs.hnow - hs.t0}")
+
+/-- one host at the end of a step: its timer advances by exactly one tick whether or not it runs;
+    a running host's runtime clock has advanced by `A`. -/
+def hostStepEnd (tick A : Nat) (hs : Host) : Host :=
+  { hs with elapsed := hs.elapsed + tick, winStart := if hs.running then hs.winStart + A else hs.winStart }
+
+/-- End of `Sim::step`: every host's timer and the sim clock advance by one tick; the runtimes of
+    running hosts have advanced to the next grid instant. -/
 def stepEnd (w : World) : World :=
-  { w with hosts := w.hosts.map (fun h => { h with elapsed := h.elapsed + w.cfg.tick }),
+  { w with hosts := w.hosts.map (hostStepEnd w.cfg.tick (ceilMs w.cfg.tick)),
            elapsed := w.elapsed + w.cfg.tick, cur := none }
 
 def crash (w : World) (h : Nat) : World :=
@@ -410,7 +451,8 @@ def crash (w : World) (h : Nat) : World :=
 
 def bounce (w : World) (h : Nat) : World :=
   let w := w.dropAll h
-  w.setHost h (fun hs => { hs with running := true })
+  -- a fresh runtime: its clock starts again
+  w.setHost h (fun hs => { hs with running := true, winStart := 0, hnow := 0, wake := none, t0 := 0 })
 
 end World
 end TV
